@@ -16,6 +16,14 @@ SlabInteresting ==
 ExportInvS ==
   (Final /\ d.race) => PrintT(<<"CASE", ToJson([script |-> script, hist |-> hist, elog |-> elog])>>)
 
+\* Ret-focused export: programs in which a ret_to!/ret_some_to! Ret was used or dropped
+ExportInvR ==
+  (Final /\ \E r \in DOMAIN d.rets : d.rets[r].kind # "plain" /\ d.rets[r].loc = "gone") =>
+     PrintT(<<"CASE", ToJson([script |-> script, hist |-> hist, elog |-> elog])>>)
+
+ExportInvF ==
+  (Final /\ d.nextVal > 1) => PrintT(<<"CASE", ToJson([script |-> script, hist |-> hist, elog |-> elog])>>)
+
 Ops_All == {"defer", "lazy", "idle", "after", "acreate", "call", "pcall", "callown", "stop", "fail",
             "owndrop", "ownclone", "keepown", "kill", "mkret", "ret", "retdrop", "keepret", "zombie",
             "run", "dropstakker"}
@@ -41,6 +49,14 @@ Ops_SMeth == {"screate", "stop", "fail", "call"}
 Ops_DTop == {"acreate", "call", "adefer", "owndrop", "kill", "run", "dropstakker"}
 Ops_DBody == {"adefer"}
 Ops_DMeth == {"vdefer", "adefer", "stop", "fail"}
+\* Ret-focused: ret_to!/ret_some_to! Rets used, dropped, kept in actor state or carried by calls, against every lifecycle state
+Ops_RTop == {"acreate", "mkret", "ret", "retdrop", "call", "kill", "owndrop", "run"}
+Ops_RBody == {"ret", "retdrop"}
+Ops_RMeth == {"stop", "ret", "retdrop", "keepret"}
+\* Fwd-focused: fwd_to! Fwds used against every lifecycle state of the target, mixed with ordinary calls
+Ops_FTop == {"acreate", "mkfwd", "fwd", "call", "kill", "owndrop", "run", "dropstakker"}
+Ops_FBody == {"fwd", "call"}
+Ops_FMeth == {"stop", "fwd", "call"}
 Ops_ATopY == Ops_ATopAll \cup {"query"}
 Ops_ABodyY == Ops_ABody \cup {"query"}
 =============================================================================
